@@ -346,6 +346,13 @@ impl<const P: u8, const G: i8> async_device::radio::PhyRxTx for ARadio<P, G> {
                 if env.radio_call().is_err() {
                     return Poll::Ready(Err(RadioFault));
                 }
+                let unarmed = {
+                    let e = env.0.borrow();
+                    e.in_transaction && e.singles <= 1 && !e.rxc_armed
+                };
+                if unarmed {
+                    env.push(Ev::ListenUnarmed);
+                }
             }
             let slot = {
                 let e = env.0.borrow();
